@@ -22,7 +22,7 @@ MANIFEST = {
     "technique": "bounded-exhaustive differential enumeration: same inputs on two backends, all observables compared",
 }
 MANIFEST["text"] += " " + (
-    'Added after the seeding waves: a second SQLite map built with single inserts, and an incremental build (load a part, query it, add the rest with add_edge, compare again); the single-insert build offers every node with ignore_doubles=True and offers every label a second time with other coordinates (content must stay that of the first offer), box-restricted listings are compared on it too.')
+    'Added after the seeding waves: a second SQLite map built with single inserts, and an incremental build (load a part, query it, add the rest with add_edge, compare again); the single-insert build offers every node with ignore_doubles=True and offers every label a second time with other coordinates (content must stay that of the first offer), box-restricted listings are compared on it too; a third SQLite build with deferred indexing (no_index / no_commit inserts, then reindex_nodes / reindex_edges) takes part in the listings, the box queries and the match.')
 BUDGET = {"quick": 400, "thorough": 2400}
 RULE = ("cases = (coordinate set, graph); each compares all observables, 64 boxes and all traces x 4 matcher configurations on both "
         "backends. states = (graph, box) and (graph, trace, configuration) pairs compared, transitions = observable comparisons, "
@@ -94,6 +94,7 @@ def run_case(case):
     try:
         sm = maps.sqlite(graph)
         sm1 = maps.sqlite(graph, name="s1", bulk=False)     # same content through add_node / add_edge
+        sm3 = maps.sqlite(graph, name="s3", bulk="deferred")     # ... and with deferred indexing + reindex_nodes / reindex_edges
     except Exception as exc:  # noqa
         res["n"] += 1
         res["st"] += 1
@@ -146,6 +147,8 @@ def run_case(case):
             for k in graph:
                 cmp(f"nodes_nbrto({k}) [single inserts]", lambda: [x for x in norm_nodes(im.nodes_nbrto(k)) if x[0] != k], lambda: norm_nodes(sm1.nodes_nbrto(k)))
             cmp("all_nodes()", lambda: norm_nodes(im.all_nodes()), lambda: norm_nodes(sm.all_nodes()))
+            cmp("all_edges() [deferred index]", lambda: norm_edges(im.all_edges()), lambda: norm_edges(sm3.all_edges()))
+            cmp("all_nodes() [deferred index]", lambda: norm_nodes(im.all_nodes()), lambda: norm_nodes(sm3.all_nodes()))
             bbv = cmp("bb()", lambda: tuple(map(float, im.bb())), lambda: tuple(map(float, sm.bb())))
             # bb() against the definition as well (both backends could be wrong together)
             ys = [graph[k][0][0] for k in graph]
@@ -199,6 +202,7 @@ def run_case(case):
                 res["st"] += 1
                 got = cmp(f"all_nodes(bb={bb})", lambda: norm_nodes(im.all_nodes(bb=bb)), lambda: norm_nodes(sm.all_nodes(bb=bb)), box=list(bb))
                 cmp(f"all_nodes(bb={bb}) [single inserts]", lambda: norm_nodes(im.all_nodes(bb=bb)), lambda: norm_nodes(sm1.all_nodes(bb=bb)), box=list(bb))
+                cmp(f"all_nodes(bb={bb}) [deferred index]", lambda: norm_nodes(im.all_nodes(bb=bb)), lambda: norm_nodes(sm3.all_nodes(bb=bb)), box=list(bb))
                 truth = norm_nodes((k, v[0]) for k, v in graph.items() if bb[0] <= v[0][0] <= bb[2] and bb[1] <= v[0][1] <= bb[3])
                 if got is not None and got != truth:
                     bad(f"all_nodes(bb={bb}) = {got}, nodes inside the closed box are {truth}", box=list(bb))
@@ -219,7 +223,7 @@ def run_case(case):
                 for kind, ne in cfgs:
                     res["st"] += 1
                     r = []
-                    for mp in (im, sm, sm1):
+                    for mp in (im, sm, sm1, sm3):
                         res["n"] += 1
                         if kind == "simple":
                             m = SimpleMatcher(mp, non_emitting_states=ne, only_edges=True, obs_noise=1.0)
@@ -234,7 +238,7 @@ def run_case(case):
                     res["tr"] += 1
                     res["tv"] += 1
                     a = r[0]
-                    for b, how in ((r[1], "SQLite (bulk inserts)"), (r[2], "SQLite (single inserts)")):
+                    for b, how in ((r[1], "SQLite (bulk inserts)"), (r[2], "SQLite (single inserts)"), (r[3], "SQLite (deferred index)")):
                         same = a[0] == b[0] and ((a[1] is None and b[1] is None) or (
                             a[1] is not None and b[1] is not None and not isinstance(a[1], str) and not isinstance(b[1], str)
                             and abs(a[1] - b[1]) <= 1e-9 * max(1.0, abs(a[1]))))
@@ -247,6 +251,7 @@ def run_case(case):
     finally:
         maps.close(sm)
         maps.close(sm1)
+        maps.close(sm3)
     res["out"] = sorted(outs, key=repr)
     return res
 
